@@ -634,7 +634,11 @@ AEHalf(n, p) ==
 \* whose future is outstanding is pending).  The leader adopts an ADDED server's configuration
 \* when it appends the entry, a REMOVAL only when it applies it.
 PendingCfg(s) == s.cfut # 0 \/ s.ccfg.idx = 0 \/ s.ccfg.idx # s.cfg.idx
-MemberChange(n, nc, adopt) ==
+\* target: the server an AddServer call is about.  AddServer replaces the leader's replication
+\* state for it (next index 1, match index 0, no open snapshot file) even when the server is a
+\* member already and is only promoted or demoted - found as conformance drift of a replayed
+\* membership behaviour (a re-elected leader had been probing the non-voter at the end of its log)
+MemberChangeFor(n, nc, adopt, target) ==
   LET s == ns[n]
       i == LastIdx(s.log) + 1 IN
   /\ s.role = "L" /\ CommittedThisTerm(s)
@@ -648,17 +652,22 @@ MemberChange(n, nc, adopt) ==
   /\ LET s1 == [s EXCEPT !.log = AppendTo(s.log, <<Entry(s.term, "cfg", [v |-> nc.v, n |-> nc.n])>>),
                          !.cfut = i,
                          !.cfg = IF adopt THEN Cfg(i, nc.v, nc.n) ELSE s.cfg,
-                         !.next = [q \in Node |-> IF q \in (nc.v \cup nc.n) \ MembersOf(s) THEN 1 ELSE s.next[q]]]
+                         !.next = [q \in Node |-> IF q \in (nc.v \cup nc.n) \ MembersOf(s) \/ q = target THEN 1 ELSE s.next[q]],
+                         !.match = [q \in Node |-> IF q = target THEN 0 ELSE s.match[q]],
+                         !.sfile = [q \in Node |-> IF q = target THEN NoFile ELSE s.sfile[q]],
+                         !.soff = [q \in Node |-> IF q = target THEN 0 ELSE s.soff[q]]]
          s2 == IF SingleServer(s1, n) THEN [s1 EXCEPT !.commit = CommitIndexOf(s1, n)] ELSE s1 IN
      /\ ns' = [ns EXCEPT ![n] = Fin(s, s2)]
      /\ Hist1(n, s2)
   /\ UNCHANGED net
 
+MemberChange(n, nc, adopt) == MemberChangeFor(n, nc, adopt, Nil)
+
 AddServer(n, p, voter) ==
   LET s == ns[n] IN
   /\ ~(p \in MembersOf(s) /\ (p \in s.cfg.v) = voter)
-  /\ MemberChange(n, [v |-> IF voter THEN s.cfg.v \cup {p} ELSE s.cfg.v \ {p},
-                      n |-> IF voter THEN s.cfg.n \ {p} ELSE s.cfg.n \cup {p}], TRUE)
+  /\ MemberChangeFor(n, [v |-> IF voter THEN s.cfg.v \cup {p} ELSE s.cfg.v \ {p},
+                         n |-> IF voter THEN s.cfg.n \ {p} ELSE s.cfg.n \cup {p}], TRUE, p)
 
 RemoveServer(n, p) ==
   LET s == ns[n] IN
@@ -737,7 +746,10 @@ Crash(n) ==
      \* C08: the term a node has shown to others never decreases, not even across a crash
      /\ elected' = elected /\ comm' = comm /\ voted' = voted /\ acked' = acked
      /\ viol' = viol \cup (IF dt < s.term THEN {"TermMonotone"} ELSE {})
-  /\ UNCHANGED net
+  \* (behaviour generation: the replay harness cannot keep the requests of a crashed process in
+  \* flight - its connections die with it -, so they and the answers it was waiting for are lost)
+  /\ net' = IF Gen THEN {m \in net : ~(m.kind \in {"rvq", "aeq", "isq"} /\ m.from = n) /\ ~(m.kind \in {"rvr", "aer", "isr"} /\ m.to = n)}
+            ELSE net
 
 \* takeSnapshot's second critical section (only with Env:SnapWindow)
 AdoptSnapshot(n) ==
@@ -876,6 +888,8 @@ ISHandle(m) ==
 \* the node stopped leading, or the follower was removed)
 ISReply(m) ==
   /\ m \in net /\ m.kind = "isr" /\ Up(m.to)
+  \* a handler that kept the log answers only when it has compacted (it waits inside the call)
+  /\ ~(ns[m.from].park /\ ns[m.from].li.idx = m.req.idx /\ m.req.done)
   /\ LET s == ns[m.to]
          n == m.to  p == m.from
          live == s.role = "L" /\ s.sfile[p].idx # 0 /\ p \in MembersOf(s)
